@@ -4,9 +4,9 @@
      1 L bytes                         PeerId::from_bytes
      2 L chars                         PeerId::from_str (ASCII)
      3 L bytes                         Multiaddr::try_from(bytes) + PeerId::try_from_multiaddr
-     4 L blob L sha oc                 a protobuf key blob: sha = SHA-256(blob) (oracle), oc = is the
-                                       Data field a point of the curve (oracle: curve25519 is not
-                                       modelled; the protobuf decoding and the key admission are)
+     4 L blob oc                       a protobuf key blob; oc = is the Data field a point of the curve
+                                       (oracle: curve25519 is not modelled; the protobuf decoding, the
+                                       key admission and SHA-256 are)
      5 L secret L pub L blob           an Ed25519 keypair and an encoding of its public key
                                        (canonical or mutated) pushed through the Noise identity check
                                        with a valid signature of that key
@@ -15,11 +15,14 @@
      7 L bytes L bytes                 two ids: PartialEq, Ord, Hash against the byte order
      8 n                               n draws of PeerId::random()
      9 L secret L pub L blob           as 5, through a TLS certificate (QUIC; harness built with `quic`)
-     10 L blob L pkcs1 L sha xacc      an RSA key (harness built with `rsa`): blob = protobuf framing
-                                       around its SubjectPublicKeyInfo, sha = SHA-256 of the canonical
-                                       message as computed by the harness, xacc = does the X.509 parser
+     10 L blob L pkcs1 xacc            an RSA key (harness built with `rsa`): blob = protobuf framing
+                                       around its SubjectPublicKeyInfo, xacc = does the X.509 parser
                                        take the Data field for this key (oracle, only consulted when the
                                        field is not the canonical DER)
+     11 L peer L addr                  AddressRecord::new(peer, addr, 0) / from_multiaddr(addr) for a peer
+                                       id given as bytes and ANY binary multiaddress (multiaddr 0.18.2's
+                                       protocol table, coq/C19/Formats.v), and try_from_multiaddr of the
+                                       address and of the record's address
    Traces:
      kinds 1-3,6: k 1 L bytes L text L component f1..f10 refacc refsame    accepted
                   k 0 refacc agree [err]                                  rejected (kind 2: err = 1
@@ -31,10 +34,15 @@
      kind 7:     7 a1 a2 [eq ord hashimp byteseq bytesord texteq]   (ord: 0 Less 1 Equal 2 Greater)
      kind 8:     8 ok
      kind 10:    10 acc [L pid] nacc [L noise_pid] tacc [L tls_pid]
+     kind 11:    11 pacc [aacc [r0acc [L r0] L recbytes r1acc [L r1] fm]]
+                 (r0 = try_from_multiaddr(addr), recbytes = record.address().to_vec(),
+                  r1 = try_from_multiaddr(record.address()), fm = from_multiaddr(addr).is_some())
    A panic is the single number PANIC_MARK. *)
 From Coq Require Import List NArith Bool.
 From V.common Require Import Wire Varint.
-From V.C18 Require Import Model.
+From V.common Require Import Protobuf Sha256.
+From V.C18 Require Import Model Addr.
+From V.C19 Require Import Formats.
 Import ListNotations.
 Open Scope N_scope.
 
@@ -45,13 +53,14 @@ Inductive case :=
 | CBytes (b : list N)
 | CText (t : list N)
 | CComp (b : list N)
-| CBlob (blob sha : list N) (oc : bool)
+| CBlob (blob : list N) (oc : bool)
 | CKey (secret pub blob : list N)
 | CAddr (t : list N)
 | CPair (b1 b2 : list N)
 | CRandom (n : N)
 | CTls (secret pub blob : list N)
-| CRsa (blob pkcs1 sha : list N) (xacc : bool).
+| CRsa (blob pkcs1 : list N) (xacc : bool)
+| CRec (peer addr : list N).
 
 Definition p_case : parser case :=
   let* k := pN in
@@ -59,24 +68,24 @@ Definition p_case : parser case :=
   | 1 => let* b := pL in pret (CBytes b)
   | 2 => let* b := pL in pret (CText b)
   | 3 => let* b := pL in pret (CComp b)
-  | 4 => let* blob := pL in let* sha := pL in let* oc := pBool in pret (CBlob blob sha oc)
+  | 4 => let* blob := pL in let* oc := pBool in pret (CBlob blob oc)
   | 5 => let* s := pL in let* p := pL in let* blob := pL in pret (CKey s p blob)
   | 6 => let* b := pL in pret (CAddr b)
   | 7 => let* a := pL in let* b := pL in pret (CPair a b)
   | 8 => let* n := pN in pret (CRandom n)
   | 9 => let* s := pL in let* p := pL in let* blob := pL in pret (CTls s p blob)
-  | 10 => let* blob := pL in let* pk := pL in let* sha := pL in let* acc := pBool in
-          pret (CRsa blob pk sha acc)
+  | 10 => let* blob := pL in let* pk := pL in let* acc := pBool in pret (CRsa blob pk acc)
+  | 11 => let* pb := pL in let* ab := pL in pret (CRec pb ab)
   | _ => pfail
   end.
 
 Definition well_formed (c : case) : bool :=
   match c with
   | CBytes b | CText b | CComp b | CAddr b => true
-  | CPair _ _ | CRandom _ => true
+  | CPair _ _ | CRandom _ | CRec _ _ => true
   | CTls s p blob => bytes_ok s && bytes_ok p && bytes_ok blob && (len s =? 32) && (len p =? 32)
-  | CRsa blob pk sha _ => bytes_ok blob && bytes_ok pk && bytes_ok sha && (len sha =? 32)
-  | CBlob blob sha _ => bytes_ok blob && bytes_ok sha && (len sha =? 32)
+  | CRsa blob pk _ => bytes_ok blob && bytes_ok pk
+  | CBlob blob _ => bytes_ok blob
   | CKey s p blob => bytes_ok s && bytes_ok p && bytes_ok blob && (len s =? 32) && (len p =? 32)
   end.
 
@@ -137,13 +146,31 @@ Definition keymsg_trace (blob : list N) : list N :=
   | None => [0]
   end.
 
+Definition opt_pid (o : option pid) : list N :=
+  match o with Some q => 1 :: eL (to_bytes q) | None => [0] end.
+
+Definition rec_trace (pb ab : list N) : list N :=
+  match of_bytes pb with
+  | None => [11; 0]
+  | Some p =>
+      match maddr_parse ab with
+      | Ok cs =>
+          11 :: 1 :: 1 :: opt_pid (of_comps cs) ++
+          match record_new_bytes p ab with
+          | Some rb => eL rb ++ opt_pid (of_maddr rb)
+          | None => []
+          end ++ [b2n (ends_with_p2p cs)]
+      | _ => [11; 1; 0]
+      end
+  end.
+
 Definition run (c : case) : list N :=
   match c with
   | CBytes b => parse_result 1 (of_bytes b)
   | CText t => text_result t
   | CComp b => parse_result 3 (of_component b)
-  | CBlob blob sha oc =>
-      4 :: eL (to_bytes (of_key_enc sha blob)) ++ keymsg_trace blob ++
+  | CBlob blob oc =>
+      4 :: eL (to_bytes (derive sha256 blob)) ++ keymsg_trace blob ++
       (match blob_decoder oc blob with
        | Some (KEd k) =>
             let pb := eL (to_bytes (remote_to_peer_id (const_hash []) (KEd k))) in
@@ -163,11 +190,12 @@ Definition run (c : case) : list N :=
       end
   | CRandom _ => [8; 1]
   | CTls s p blob => handshake_trace 9 p (blob_is_key p blob)
-  | CRsa blob pk sha xacc =>
+  | CRsa blob pk xacc =>
       if blob_is_rsa_key pk xacc blob
-      then let pb := eL (to_bytes (remote_to_peer_id (const_hash sha) (KRsa pk))) in
+      then let pb := eL (to_bytes (remote_to_peer_id sha256 (KRsa pk))) in
            10 :: 1 :: pb ++ 1 :: pb ++ 1 :: pb
       else [10; 0; 0; 0]
+  | CRec pb ab => rec_trace pb ab
   end.
 
 Definition run_case (l : list N) : list N :=
@@ -236,8 +264,9 @@ Definition overlong (c : case) (a : accepted) : bool :=
 
 Definition kind_of (c : case) : N :=
   match c with
-  | CBytes _ => 1 | CText _ => 2 | CComp _ => 3 | CBlob _ _ _ => 4 | CKey _ _ _ => 5
-  | CAddr _ => 6 | CPair _ _ => 7 | CRandom _ => 8 | CTls _ _ _ => 9 | CRsa _ _ _ _ => 10
+  | CBytes _ => 1 | CText _ => 2 | CComp _ => 3 | CBlob _ _ => 4 | CKey _ _ _ => 5
+  | CAddr _ => 6 | CPair _ _ => 7 | CRandom _ => 8 | CTls _ _ _ => 9 | CRsa _ _ _ => 10
+  | CRec _ _ => 11
   end.
 
 Definition is_parse (c : case) : bool := (kind_of c <=? 3) || (kind_of c =? 6).
@@ -254,7 +283,7 @@ Definition pair_ok (body : list N) : bool :=
 
 (* an RSA key: whatever framing was received, all three paths give the id of the canonical
    message (SHA-256 multihash; the digest is the oracle of the case) *)
-Definition rsa_ok (pk sha : list N) (xacc : bool) (blob : list N) (body : list N) : bool :=
+Definition rsa_ok (pk : list N) (xacc : bool) (blob : list N) (body : list N) : bool :=
   let acc := blob_is_rsa_key pk xacc blob in
   match pall (let* a := pN in
               let* p1 := (if a =? 1 then let* x := pL in pret (Some x) else pret None) in
@@ -264,7 +293,7 @@ Definition rsa_ok (pk sha : list N) (xacc : bool) (blob : list N) (body : list N
               let* p3 := (if ta =? 1 then let* x := pL in pret (Some x) else pret None) in
               pret (p1, p2, p3)) body with
   | Some (p1, p2, p3) =>
-      let want := to_bytes (remote_to_peer_id (const_hash sha) (KRsa pk)) in
+      let want := to_bytes (remote_to_peer_id sha256 (KRsa pk)) in
       let good := fun o : option (list N) =>
                     match o with Some x => acc && nlist_eqb x want | None => negb acc end in
       good p1 && good p2 && good p3
@@ -279,7 +308,7 @@ Definition p_optlist (flag : N) : parser (option (list N)) :=
    the message carries (Ed25519-typed, 32 bytes — the trace's own report of the decoded message
    is used, so this does not depend on the model's decoder) and the reference derives the same
    id; the reference admits the blob exactly when litep2p does *)
-Definition blob_ok (blob sha : list N) (body : list N) : bool :=
+Definition blob_ok (blob : list N) (body : list N) : bool :=
   match pall (let* pid0 := pL in
               let* dm := pN in
               let* msg := (if dm =? 1 then let* t := pN in let* d := pL in pret (Some (t, d)) else pret None) in
@@ -290,7 +319,7 @@ Definition blob_ok (blob sha : list N) (body : list N) : bool :=
               let* rp := p_optlist ra in
               pret (pid0, dm, msg, acc, key, pidb, ra, rp)) body with
   | Some (pid0, dm, msg, acc, key, pidb, ra, rp) =>
-      nlist_eqb pid0 (to_bytes (of_key_enc sha blob)) && (dm <=? 1) && (acc <=? 1) && (ra <=? 1) &&
+      nlist_eqb pid0 (to_bytes (derive sha256 blob)) && (dm <=? 1) && (acc <=? 1) && (ra <=? 1) &&
       (acc =? ra) &&
       match key, pidb, rp with
       | Some key, Some pidb, Some rp =>
@@ -321,6 +350,36 @@ Definition key_ok (pub blob : list N) (body : list N) : bool :=
   | None => false
   end.
 
+(* AddressRecord::new: whenever the peer id and the address are accepted, the record's address
+   yields an id; it is the given peer when the address did not end with /p2p, and otherwise the
+   address is kept byte for byte and yields the id it already carried (from_multiaddr says which
+   case it is) *)
+Definition rec_ok (pb ab : list N) (body : list N) : bool :=
+  match body with
+  | [0] => true
+  | [1; 0] => true
+  | 1 :: 1 :: rest =>
+      match pall (let* a0 := pN in let* r0 := p_optlist a0 in
+                  let* rb := pL in
+                  let* a1 := pN in let* r1 := p_optlist a1 in
+                  let* fm := pN in pret (r0, rb, r1, fm)) rest with
+      | Some (r0, rb, r1, fm) =>
+          match r1 with
+          | None => false
+          | Some r1 =>
+              if fm =? 1 then
+                nlist_eqb rb ab && match r0 with Some r0 => nlist_eqb r0 r1 | None => false end
+              else if fm =? 0 then
+                match r0 with Some _ => false | None => true end &&
+                match of_bytes pb with Some p => nlist_eqb r1 (to_bytes p) | None => false end &&
+                Nat.ltb (length ab) (length rb) && nlist_eqb (firstn (length ab) rb) ab
+              else false
+          end
+      | None => false
+      end
+  | _ => false
+  end.
+
 Definition prop_parts (case trace : list N) : option (bool * bool * bool) :=
   (* (core, canonical, overlong) *)
   match decode_case case with
@@ -344,11 +403,12 @@ Definition prop_parts (case trace : list N) : option (bool * bool * bool) :=
             end
           else
             match c with
-            | CBlob blob sha _ => Some (blob_ok blob sha rest, true, false)
+            | CBlob blob _ => Some (blob_ok blob rest, true, false)
             | CKey _ pub blob | CTls _ pub blob => Some (key_ok pub blob rest, true, false)
             | CPair _ _ => Some (pair_ok rest, true, false)
             | CRandom _ => Some (match rest with [1] => true | _ => false end, true, false)
-            | CRsa blob pk sha xacc => Some (rsa_ok pk sha xacc blob rest, true, false)
+            | CRsa blob pk xacc => Some (rsa_ok pk xacc blob rest, true, false)
+            | CRec pb ab => Some (rec_ok pb ab rest, true, false)
             | _ => Some (false, true, false)
             end
       | [] => Some (false, true, false)
